@@ -62,6 +62,7 @@ void AsyncSim::on_conf_callback(KSI_Config *c) {
 void AsyncSim::setup() {
 	int64_t epoch = EPOCHS_S[plan.c("epoch", 0) % 6] * 1000 + plan.c("epoch_ms", 0) % 1000;
 	K.reset(epoch);
+	if (ha) { K.alias_from = "C13"; K.alias_to = "C15"; } // exactly-once / soundness / liveness of the HA service are C15's
 	N.reset();
 	C.reset();
 	g_cur = this;
@@ -457,7 +458,14 @@ void AsyncSim::op_deliver(const run::Op &op) {
 	auto st = streams_with_inflight();
 	if (st.empty()) return;
 	auto s = st[(size_t)op.arg(0) % st.size()];
-	size_t n = (size_t)op.arg(1);
+	int64_t a = op.arg(1);
+	size_t n = (size_t)(a < 0 ? 0 : a);
+	if (a < 0) {
+		// everything in flight except the last |a| bytes (cuts inside the tail of a PDU)
+		size_t inflight = s.first >= 0 ? N.conns[s.first]->inflight() : C.xfers[s.second]->inflight();
+		if (inflight <= (size_t)(-a)) return;
+		n = inflight - (size_t)(-a);
+	}
 	if (s.first >= 0) { size_t m = N.deliver(*N.conns[s.first], n); if (n && m) K.count("fault.segmentation"); }
 	else { size_t m = C.deliver(*C.xfers[s.second], n); if (n && m) K.count("fault.segmentation"); }
 }
@@ -513,7 +521,12 @@ void AsyncSim::op_reply(const run::Op &op) {
 		if (e.pushed_conf) behav = B_HONEST; else e.pushed_conf = true;
 	}
 	if (behav != B_HONEST) note_fault("adversarial_reply");
+	// arg 3: pad the reply PDU to one of the sizes around the largest legal PDU (version 2 only)
+	static const size_t pads[] = {0, 65535, 65536, 65537, 65538, 65539, 32768, 65534};
+	world.pad_total = e.cfg.pdu_ver == 2 ? pads[(size_t)op.arg(3) % 8] : 0;
+	if (world.pad_total) K.count("probe.big_reply_pdu");
 	send_reply(e, rq, behav, (uint64_t)op.arg(2));
+	world.pad_total = 0;
 	e.answered.push_back(rq);
 	if (e.answered.size() > 64) e.answered.erase(e.answered.begin());
 }
@@ -837,6 +850,7 @@ void AsyncSim::check_response(HRec &r, Attempt &a) {
 		return;
 	}
 	if (a.id >> 32) K.count("probe.generation_nonzero");
+	for (auto *g : good) if (g->bytes.size() >= 65535) { K.count("probe.big_reply_pdu_accepted"); break; }
 	// the response object must be one of those replies
 	if (!svc_ext) {
 		KSI_AggregationResp *resp = nullptr;
@@ -864,6 +878,24 @@ void AsyncSim::check_response(HRec &r, Attempt &a) {
 			if (parsed && !same) K.fail("C13", "response-content-mismatch", "signature", "handle #%d: signature content is not that of any eligible reply", r.idx);
 			K.count("outcome.signature");
 			KSI_Signature_free(sig);
+			// asking again must not yield another verdict or another signature (the call is a getter on a completed handle)
+			if (plan.c("getsig_twice", 1)) {
+				KSI_Signature *sig2 = nullptr;
+				int res2 = KSI_AsyncHandle_getSignature(r.h, &sig2);
+				K.ev("getSignature again #%d -> 0x%x", r.idx, res2);
+				if (res2 == KSI_OK && sig2) {
+					std::string b2 = sdk::serialize(sig2);
+					if (b2 != bytes) {
+						SigView v2; bool p2 = parse_signature(b2, v2);
+						SigFacts f2 = p2 ? evaluate(v2) : SigFacts();
+						bool ok2 = p2 && f2.consistent && f2.input_hash == r.hash && f2.first_lc >= r.level;
+						if (!ok2) K.fail("C07", "signature-accepted-but-invalid", "second-getSignature", "handle #%d: a second getSignature call succeeded with a signature that is not valid for the requested hash/level (%s)", r.idx, f2.why.c_str());
+						else K.fail("C07", "signature-differs-between-calls", "second-getSignature", "handle #%d: a second getSignature call returned a different (valid) signature", r.idx);
+					}
+					K.count("probe.getsignature_twice");
+				} else if (ok) K.fail("C07", "valid-signature-refused-on-second-call", sdk::err_name(res2), "handle #%d: the first getSignature call succeeded, the second failed with 0x%x", r.idx, res2);
+				KSI_Signature_free(sig2);
+			}
 		} else {
 			bool honest = false;
 			for (auto *g : good) if (g->behav == B_HONEST || g->behav == B_WITH_CONF) honest = true;
